@@ -167,6 +167,9 @@ def field_attrs(f, named):
     if f["skip_none"]:
         sd.append('skip_serializing_if = "Option::is_none"')
         sd.append("default")
+    if f.get("skip_de"):
+        # serde still WRITES the field (ts-rs does not know the key and must leave the field alone); the type needs Default
+        sd.append("skip_deserializing")
     docs = "".join("#[doc = %s] " % rust_str_lit(l) for l in f["docs"])
     return docs + attr_list("ts", ts) + attr_list("serde", sd)
 
@@ -213,10 +216,14 @@ def to_rust(d):
         ts.append("type = %s" % rust_str_lit(d["type"]))
     if d["as_"] is not None:
         ts.append("as = %s" % rust_str_lit(rust_ty(d["as_"])))
+    split_concrete = ""
     if d.get("concrete"):
-        ts.append("concrete(%s)" % ", ".join("%s = %s" % (pnames[int(i)], rust_ty(t)) for i, t in d["concrete"]))
+        if d.get("concrete_split"):      # one attribute per concretised parameter
+            split_concrete = "".join("#[ts(concrete(%s = %s))]\n" % (pnames[int(i)], rust_ty(t)) for i, t in d["concrete"])
+        else:
+            ts.append("concrete(%s)" % ", ".join("%s = %s" % (pnames[int(i)], rust_ty(t)) for i, t in d["concrete"]))
     docs = "".join("#[doc = %s]\n" % rust_str_lit(l) for l in d["docs"])
-    derives = "#[derive(TS, Serialize, Deserialize, Debug, Clone, PartialEq)]\n"
+    derives = "#[derive(TS, Serialize, Deserialize, Debug, Clone, PartialEq%s)]\n" % (", Eq, Hash, PartialOrd, Ord" if d.get("as_key") else "") + split_concrete
     if d["kind"] == "struct":
         if d["tag"] is not None:
             sd.append("tag = %s" % rust_str_lit(d["tag"]))
